@@ -125,8 +125,11 @@ GLM_FUNC_QUALIFIER glm_vec4 glm_vec4_round(glm_vec4 x)
 		glm_vec4 const and0 = _mm_and_ps(sgn0, x);
 		glm_vec4 const or0 = _mm_or_ps(and0, _mm_set_ps1(8388608.0f));
 		glm_vec4 const add0 = glm_vec4_add(x, or0);
-		glm_vec4 const sub0 = glm_vec4_sub(add0, or0);
-		return sub0;
+		glm_vec4 const sub0 = _mm_or_ps(glm_vec4_sub(add0, or0), and0);
+		// From 2^23 on every float is integral already and x + 2^23 is no longer exact:
+		// odd values would come back as their even neighbour. Those lanes (and NaN) return x.
+		glm_vec4 const big0 = _mm_cmpnlt_ps(_mm_andnot_ps(sgn0, x), _mm_set_ps1(8388608.0f));
+		return _mm_or_ps(_mm_and_ps(big0, x), _mm_andnot_ps(big0, sub0));
 #	endif
 }
 
